@@ -271,7 +271,7 @@ Definition run_op6 (sc : scn) (utxos : list (N * value)) (x : op6) (tape : list 
       let f := finish6 res RBool in
       (fst f, mkR (snd f) (r_ref r) bal, o_checked (out_orc res))
   | Base OpBuild =>
-      let res := build_tx6 orc s o in
+      let res := build_tx orc s o in
       let f := finish6 res (fun _ => ROk) in
       (fst f, mkR (snd f) (r_ref r) (r_bal r), o_checked (out_orc res))
   | Base (OpOutput y) =>
